@@ -446,5 +446,7 @@ func (e *Env) pgSpaces(thorough bool) []*Space {
 	out = append(out, e.fieldSpace("postgresql", "pg-session-client", cliSeeds, thorough, []*Decoder{cli, e.byName["postgresql.PacketHandler.ReadClientPacket[started]"]}))
 	out = append(out, e.fieldSpace("postgresql", "pg-session-db-simple", dbSimpleSeeds, thorough, []*Decoder{dbSimple, e.byName["postgresql.PacketHandler.ReadPacket"]}))
 	out = append(out, e.fieldSpace("postgresql", "pg-session-db-extended", dbExtSeeds, thorough, []*Decoder{dbExtended}))
+	// the reader at the start of a session and in its steady state x every declared length (modes.go)
+	out = append(out, e.pgStartSpaces(thorough, cliFirst, cli)...)
 	return out
 }
